@@ -14,10 +14,16 @@ import (
 // `bound` deviating (non-sorted) range executions.  visit is called after each
 // execution with the choice sequence that was used.  It returns the number of
 // executions, and whether maxRuns cut the exploration short.
+// Diverged describes the last replay divergence ("" if none): re-executing f under a recorded prefix of
+// choices met a different sequence of map ranges.  The explorer itself is deterministic, so this means f
+// behaved differently on identical inputs (hidden state in the code under test).
+var Diverged string
+
 func Orders(bound int, maxRuns int, f func(), visit func(choices []int)) (runs int, capped bool) {
+	Diverged = ""
 	var explore func(prefix []int, devs int)
 	explore = func(prefix []int, devs int) {
-		if capped {
+		if capped || Diverged != "" {
 			return
 		}
 		if runs >= maxRuns {
@@ -32,7 +38,8 @@ func Orders(bound int, maxRuns int, f func(), visit func(choices []int)) (runs i
 			if pos < len(prefix) {
 				c = prefix[pos]
 				if c >= a {
-					panic(fmt.Sprintf("vexplore: replay diverged: choice %d of %d at point %d", c, a, pos))
+					Diverged = fmt.Sprintf("choice %d of %d alternatives at range point %d", c, a, pos)
+					c = 0
 				}
 			}
 			pos++
@@ -43,8 +50,11 @@ func Orders(bound int, maxRuns int, f func(), visit func(choices []int)) (runs i
 		f()
 		vrange.Chooser = nil
 		runs++
-		if pos < len(prefix) {
-			panic(fmt.Sprintf("vexplore: replay diverged: only %d of %d range points reached", pos, len(prefix)))
+		if pos < len(prefix) && Diverged == "" {
+			Diverged = fmt.Sprintf("only %d of %d recorded range points reached", pos, len(prefix))
+		}
+		if Diverged != "" {
+			return
 		}
 		visit(choices)
 		if devs >= bound {
